@@ -230,7 +230,7 @@ def check_C03(world, hist, pred):
 
     def check(node, kind, children):
         if node.get("hook_failed") or node["id"] in cleanup_failed or \
-                (node["status"] == "hook_error" and kind != "outline"):
+                (node["status"] == "hook_error" and kind not in ("outline", "scenario")):
             rec = pred.scen.get(node["id"]) if kind == "scenario" else None
             if rec and rec.get("attempts", 1) > 1 and not dead and not rec.get("hook_failed") \
                     and not rec.get("cleanup_failed") and not rec.get("step_hook_failed"):
@@ -325,7 +325,9 @@ def _static_selection_checks(world, hist, prop, reason_kinds):
                 break
         if why is None and mine and not skippers and not cfg.get("dry_run"):
             # selected by every criterion: it must not be skip-marked by the selection machinery
-            if node["should_skip"] and node["status"] == "skipped" and node["steps"]:
+            if node["status"] == "skipped" and node["steps"] and \
+                    (node["should_skip"] or sid not in executed):
+                # (skip-marked itself, or skipped wholesale with its feature / rule)
                 other = [k for k in ("tags", "name", "location") if in_force[k] and k not in reason_kinds]
                 out.append(V(prop, "selected-not-executed", "skip-marked:%s" % "+".join(mine), scen=sid,
                              also_in_force=other))
